@@ -2558,6 +2558,8 @@ class Context:
 
         chunks = self.get_metadata(run_id, per_chunked_dependency)["chunks"]
         if chunk_number_group is not None:
+            # The groups are read and written one after the other: keep them in order of time
+            chunk_number_group = sorted(chunk_number_group)
             combined_chunk_numbers = list(itertools.chain.from_iterable(chunk_number_group))
             if len(combined_chunk_numbers) != len(set(combined_chunk_numbers)):
                 raise ValueError(f"Duplicate chunk numbers found in {chunk_number_group}")
